@@ -1,7 +1,490 @@
-//! C01 — not implemented yet (see DESIGN.md section 4).
-use kit::Run;
-use serde_json::Value;
+//! C01 — tamper evidence of asset content (S-inp, bounded exhaustive).
+//!
+//! Seeds: tiny asset of every writable format x hard-binding kind (data hash, box hash through
+//! `core.prefer_compress_manifests`, BMFF hash with and without Merkle, update manifests through
+//! `BuilderIntent::Update`, detached manifest = sidecar). Every seed must read back Valid.
+//! Alphabet: ONE contiguous edit of the signed file F: overwrite / delete / insert / truncate at every position of
+//! a stated position set, appends, and whole-unit edits (duplicate, delete, swap, append) at every structural boundary
+//! found by the harness's own container walkers.
+//! Oracle (property text): the read is Err, or Invalid, or (Valid|Trusted AND the canonical report equals the seed's AND
+//! the mutant is byte-identical to F outside what the SIGNED hard binding declares excluded, resolved by the harness's
+//! own resolvers: DataHash ranges / the C2PA box / BMFF exclusion xpaths). A panic is neither Err nor Invalid.
+//!
+//! Mutants caught (tools/mutant_run.sh B ... C01 quick):
+//!   /verif/mutants/C01-exclusion-off-by-one.diff
+//!   /verif/mutants/C01-inclusion-off-by-one.diff
 
-pub fn run(_run: &Run, _replay: Option<&Value>) {
-    kit::ev::machinery("C01: check not implemented");
+use std::{
+    collections::hash_map::DefaultHasher,
+    hash::{Hash, Hasher},
+    io::Cursor,
+};
+
+use c2pa::{Builder, BuilderIntent, Reader};
+use kit::{
+    assets::{self, Asset},
+    par, sdk,
+    tamper::{self, Binding, Edit, Obs, ReadSpec, Unit},
+    Run,
+};
+use serde_json::{json, Value};
+
+pub const DEF: &str = r#"{"title":"t","claim_generator_info":[{"name":"kit","version":"1"}]}"#;
+pub const COMPRESS: &str = r#"{"core":{"prefer_compress_manifests":true}}"#;
+pub const MERKLE: &str = r#"{"core":{"merkle_tree_chunk_size_in_kb":1}}"#;
+
+pub struct Seed {
+    pub id: String,
+    pub fmt: &'static str,
+    pub family: &'static str,
+    pub spec: ReadSpec,
+    /// the signed file (for detached seeds: the unchanged asset)
+    pub signed: Vec<u8>,
+    /// detached manifest store (sidecar flow)
+    pub detached: Option<Vec<u8>>,
+    pub binding: Binding,
+    pub canon: String,
+    pub excl: Vec<(usize, usize)>,
+    pub prot: Vec<u8>,
+    pub units: Option<Vec<Unit>>,
+}
+
+impl Seed {
+    pub fn observe(&self, m: &[u8]) -> Obs {
+        match &self.detached {
+            None => tamper::observe(&self.spec, m),
+            Some(man) => tamper::observe_detached(&self.spec, man, m),
+        }
+    }
+}
+
+fn signer() -> Box<dyn c2pa::Signer + Send + Sync> {
+    sdk::fixture_signer("ed25519")
+}
+
+/// Sign with Update intent on top of an already signed asset.
+pub fn sign_update(mime: &str, signed: &[u8], settings: &[&str]) -> Vec<u8> {
+    sign_update_titled(mime, signed, settings, "upd")
+}
+
+pub fn sign_update_titled(mime: &str, signed: &[u8], settings: &[&str], title: &str) -> Vec<u8> {
+    let mut b = Builder::from_context(sdk::ctx_with(settings))
+        .with_definition(format!(r#"{{"title":"{title}","claim_generator_info":[{{"name":"kit","version":"1"}}]}}"#))
+        .unwrap_or_else(|e| kit::ev::machinery(format!("update definition: {e:?}")));
+    b.set_intent(BuilderIntent::Update);
+    match sdk::sign(&mut b, signer().as_ref(), mime, signed) {
+        Ok((o, _)) => o,
+        Err(e) => kit::ev::machinery(format!("update-manifest seed signing failed for {mime}: {e:?}")),
+    }
+}
+
+pub const PREFER_BOX_HASH: &str = r#"{"builder":{"prefer_box_hash":true}}"#;
+
+/// `builder.prefer_box_hash` flow: update_hash_from_stream -> sign_embeddable -> splice at the C2PA slot of the box map.
+pub fn sign_box_embeddable(a: &Asset) -> Result<Vec<u8>, String> {
+    let ctx = sdk::ctx_with(&[PREFER_BOX_HASH]).with_signer(sdk::SendSigner(signer()));
+    let def = r#"{"title":"t","claim_generator_info":[{"name":"kit","version":"1"}],"assertions":[{"label":"c2pa.actions","data":{"actions":[{"action":"c2pa.created","digitalSourceType":"http://cv.iptc.org/newscodes/digitalsourcetype/digitalCapture"}]}}]}"#;
+    let mut b = Builder::from_context(ctx).with_definition(def).map_err(|e| format!("definition: {e:?}"))?;
+    if b.needs_placeholder(a.mime) {
+        return Err("needs_placeholder is true although prefer_box_hash is set".into());
+    }
+    b.update_hash_from_stream(a.mime, &mut Cursor::new(&a.data)).map_err(|e| format!("update_hash_from_stream: {e:?}"))?;
+    let composed = b.sign_embeddable(a.mime).map_err(|e| format!("sign_embeddable: {e:?}"))?;
+    let map = c2pa::verif_hooks::box_map(a.mime, &a.data).ok_or("no box map")?.map_err(|e| format!("box map: {e:?}"))?;
+    let slot = map.iter().find(|m| m.names.first().map(|n| n == "C2PA").unwrap_or(false)).ok_or("box map has no C2PA slot")?;
+    let (s, l) = (slot.range_start as usize, slot.range_len as usize);
+    let mut out = a.data[..s].to_vec();
+    out.extend_from_slice(&composed);
+    out.extend_from_slice(&a.data[s + l..]);
+    Ok(out)
+}
+
+/// Finish a seed: read it back, require Valid, extract the signed binding and resolve it on F.
+pub fn finish_seed(id: String, a: &Asset, signed: Vec<u8>, detached: Option<Vec<u8>>, update: bool) -> Seed {
+    let family = tamper::family(a.mime);
+    let spec = ReadSpec { mime: a.mime.to_string(), settings: vec![] };
+    let ctx = tamper::ctx_for(&spec.settings);
+    let rd = match &detached {
+        None => Reader::from_shared_context(&ctx).with_stream(a.mime, Cursor::new(&signed)),
+        Some(m) => Reader::from_shared_context(&ctx).with_manifest_data_and_stream(m, a.mime, Cursor::new(&signed)),
+    };
+    let rd = rd.unwrap_or_else(|e| kit::ev::machinery(format!("seed {id} does not read back: {e:?}")));
+    let st = sdk::state_name(rd.validation_state());
+    if st == "Invalid" {
+        kit::ev::machinery(format!("seed {id} reads back Invalid: {:?}", kit::canon::codes(&rd)));
+    }
+    let detailed: Value = serde_json::from_str(&rd.detailed_json()).unwrap_or(Value::Null);
+    // the manifest that carries the hard binding: the active one, or (update manifests) the only one that has one
+    let labels: Vec<String> = detailed["manifests"].as_object().map(|m| m.keys().cloned().collect()).unwrap_or_default();
+    let mut found: Vec<Binding> = vec![];
+    let mut errs = vec![];
+    if std::env::var("VERIF_DEBUG").is_ok() {
+        for l in &labels {
+            if let Some(o) = detailed["manifests"][l]["assertion_store"].as_object() {
+                for (k, v) in o {
+                    if k.starts_with("c2pa.hash") {
+                        let mut t = v.to_string();
+                        t.truncate(1500);
+                        eprintln!("DEBUG seed {id} manifest {l} {k}: {t}");
+                    }
+                }
+            }
+        }
+    }
+    for l in &labels {
+        match tamper::binding_from_report(&detailed, l, family) {
+            Ok(b) => found.push(b),
+            Err(e) => errs.push(e),
+        }
+    }
+    if found.len() != 1 {
+        kit::ev::machinery(format!("seed {id}: expected exactly one manifest with one hard binding, found {} ({errs:?})", found.len()));
+    }
+    let mut binding = found.pop().unwrap();
+    let active = rd.active_label().unwrap_or("").to_string();
+    let active_has = tamper::binding_from_report(&detailed, &active, family).is_ok();
+    if update == active_has {
+        kit::ev::machinery(format!("seed {id}: update={update} but active manifest has hard binding = {active_has}"));
+    }
+    if update {
+        if let Binding::Data { ranges, .. } = &binding {
+            binding = Binding::Data { ranges: ranges.clone(), rebase: Some(family) };
+        }
+    }
+    if detached.is_some() {
+        if let Binding::Data { ranges, .. } = &binding {
+            if !ranges.is_empty() {
+                kit::ev::machinery(format!("seed {id}: detached manifest with exclusions {ranges:?}"));
+            }
+        }
+    }
+    let excl = binding
+        .excluded(&signed)
+        .unwrap_or_else(|| kit::ev::machinery(format!("seed {id}: harness resolver cannot interpret the signed exclusions {binding:?}")));
+    let prot = binding.protected(&signed).unwrap();
+    let canon = tamper::canon_report(&rd);
+    let units = tamper::walk(family, &signed);
+    if matches!(family, "jpeg" | "png" | "gif" | "bmff" | "jxl" | "riff") && units.is_none() {
+        kit::ev::machinery(format!("seed {id}: independent {family} walker cannot parse the signed file"));
+    }
+    Seed { id, fmt: a.name, family, spec, signed, detached, binding, canon, excl, prot, units }
+}
+
+pub fn build_seeds(thorough: bool) -> Vec<Seed> {
+    let s = signer();
+    let list = if thorough { assets::all() } else { assets::base() };
+    let mut seeds = vec![];
+    for a in &list {
+        let bmff = tamper::family(a.mime) == "bmff";
+        // default binding: data hash, or BMFF hash for BMFF
+        let signed = sdk::sign_simple(s.as_ref(), a.mime, &a.data, &[]);
+        seeds.push(finish_seed(format!("{}/{}", a.name, if bmff { "bmff" } else { "data" }), a, signed.clone(), None, false));
+        if bmff {
+            let m = sdk::sign_simple(s.as_ref(), a.mime, &a.data, &[MERKLE]);
+            seeds.push(finish_seed(format!("{}/bmff-merkle", a.name), a, m, None, false));
+        }
+        if matches!(tamper::family(a.mime), "jpeg" | "png" | "gif" | "jxl") {
+            let b = sdk::sign_simple(s.as_ref(), a.mime, &a.data, &[COMPRESS]);
+            seeds.push(finish_seed(format!("{}/box", a.name), a, b, None, false));
+        }
+        if matches!(a.name, "jpeg" | "png" | "gif" | "jxl") {
+            // box hash through the embeddable workflow (builder.prefer_box_hash): hash, sign, splice the composed manifest
+            // where the handler's box map puts the C2PA entry
+            match sign_box_embeddable(a) {
+                Ok(b) => seeds.push(finish_seed(format!("{}/box-embeddable", a.name), a, b, None, false)),
+                Err(e) => kit::ev::machinery(format!("prefer_box_hash seed for {}: {e}", a.name)),
+            }
+        }
+        if matches!(a.name, "jpeg" | "png" | "mp4") {
+            let u = sign_update(a.mime, &signed, &[]);
+            seeds.push(finish_seed(format!("{}/update", a.name), a, u, None, true));
+        }
+        if matches!(a.name, "jpeg" | "png") {
+            // sidecar flow: asset unchanged, manifest detached
+            let mut b = sdk::builder(sdk::ctx(), DEF);
+            b.set_no_embed(true);
+            let (out, man) = sdk::sign(&mut b, s.as_ref(), a.mime, &a.data)
+                .unwrap_or_else(|e| kit::ev::machinery(format!("sidecar seed {}: {e:?}", a.name)));
+            if out != a.data {
+                kit::ev::machinery(format!("sidecar seed {}: no_embed output differs from the input asset", a.name));
+            }
+            seeds.push(finish_seed(format!("{}/detached", a.name), a, out, Some(man), false));
+        }
+    }
+    seeds
+}
+
+/// Is `p` in the interior of a large excluded range (= manifest store bytes, C02's subject), i.e. not within the
+/// first 64 / last 32 bytes (the container framing)?
+fn store_interior(seed: &Seed, p: usize) -> bool {
+    seed.excl.iter().any(|&(s, e)| e - s > 128 && p >= s + 64 && p < e - 32)
+}
+
+/// Positions swept per seed. thorough: every position. quick: every position outside the manifest container(s), the
+/// first 64 and last 32 bytes of each container (its framing) and every 16th byte of its interior.
+fn positions(seed: &Seed, thorough: bool) -> Vec<usize> {
+    let n = seed.signed.len();
+    (0..n).filter(|&p| thorough || !store_interior(seed, p) || p % 16 == 0).collect()
+}
+
+pub fn well_formed_extra_unit(family: &str) -> Option<Vec<u8>> {
+    Some(match family {
+        "png" => assets::png_chunk(b"tEXt", b"Comment\0evil"),
+        "jpeg" => vec![0xFF, 0xFE, 0x00, 0x06, b'e', b'v', b'i', b'l'],
+        "gif" => vec![0x21, 0xFE, 0x04, b'e', b'v', b'i', b'l', 0x00],
+        "bmff" | "jxl" => assets::bx(b"abcd", b"evil"),
+        "riff" => {
+            let mut v = b"evil".to_vec();
+            v.extend_from_slice(&4u32.to_le_bytes());
+            v.extend_from_slice(b"evil");
+            v
+        }
+        _ => return None,
+    })
+}
+
+pub fn edits(seed: &Seed, thorough: bool) -> Vec<Edit> {
+    let f = &seed.signed;
+    let n = f.len();
+    let pos = positions(seed, thorough);
+    // positions that get all 255 values in thorough: everything except the interior of the manifest store
+    let dense: Vec<bool> = (0..n).map(|p| !store_interior(seed, p)).collect();
+    let mut v = vec![];
+    for &p in &pos {
+        if thorough && dense[p] {
+            for m in 1..=255u8 {
+                v.push(Edit::flip(f, p, m));
+            }
+        } else {
+            for m in [0x01u8, 0x80, 0xFF] {
+                v.push(Edit::flip(f, p, m));
+            }
+        }
+        v.push(Edit::delete(p));
+        v.push(Edit::insert(p, 0x00));
+        v.push(Edit::insert(p, 0xFF));
+        if f[p] != 0 && f[p] != 0xFF {
+            v.push(Edit::insert_copy(f, p));
+        }
+        v.push(Edit::truncate(f, p));
+    }
+    // appends
+    for k in [1usize, 2, 8, 64] {
+        v.push(Edit::append(f, vec![0u8; k], "append-zero", format!("append-zero n={k}")));
+        v.push(Edit::append(f, vec![0xFFu8; k], "append", format!("append-ff n={k}")));
+    }
+    if let Some(units) = &seed.units {
+        if let Some((i, last)) = units.iter().enumerate().rev().find(|(_, u)| u.name != "trailing") {
+            v.push(Edit::append(f, f[last.start..last.end].to_vec(), "append-unit", format!("append-copy-of unit={i}")));
+        }
+        if let Some(x) = well_formed_extra_unit(seed.family) {
+            v.push(Edit::append(f, x.clone(), "append-new-unit", "append-new-unit".into()));
+            // ... and the same new unit inserted at every structural boundary
+            for (i, u) in units.iter().enumerate() {
+                v.push(Edit::splice("insert-new-unit", u.start, u.start, x.clone(), format!("insert-new-unit before-unit={i}")));
+            }
+        }
+        if seed.family == "bmff" {
+            // a box kind the BMFF hash declares excluded by xpath, appended and inserted at every boundary
+            let free = assets::bx(b"free", b"evil");
+            v.push(Edit::append(f, free.clone(), "append-free-box", "append-free-box".into()));
+            for (i, u) in units.iter().enumerate() {
+                v.push(Edit::splice("insert-free-box", u.start, u.start, free.clone(), format!("insert-free-box before-unit={i}")));
+            }
+        }
+        for (i, u) in units.iter().enumerate() {
+            v.push(Edit::splice("dup-unit", u.end, u.end, f[u.start..u.end].to_vec(), format!("dup-unit unit={i}")));
+            v.push(Edit::splice("del-unit", u.start, u.end, vec![], format!("del-unit unit={i}")));
+            if let Some(w) = units.get(i + 1) {
+                let mut r = f[w.start..w.end].to_vec();
+                r.extend_from_slice(&f[u.start..u.end]);
+                v.push(Edit::splice("swap-units", u.start, w.end, r, format!("swap-units unit={i}")));
+            }
+        }
+    }
+    v
+}
+
+pub fn diff_hint(a: &str, b: &str) -> String {
+    let p = a.bytes().zip(b.bytes()).position(|(x, y)| x != y).unwrap_or(a.len().min(b.len()));
+    let lo = p.saturating_sub(80);
+    let cut = |s: &str| -> String { s.chars().skip(lo).take(200).collect() };
+    format!("seed report ...{}... vs mutant report ...{}...", cut(a), cut(b))
+}
+
+/// Where the edit lands, in terms of the structure of the signed file (for violation keys).
+pub fn where_of(seed: &Seed, e: &Edit, m: &[u8]) -> String {
+    let p = tamper::first_diff(&seed.signed, m);
+    match &seed.units {
+        Some(u) => {
+            let last_end = u.iter().rev().find(|x| x.name != "trailing").map(|x| x.end).unwrap_or(seed.signed.len());
+            if p >= last_end {
+                "after-last-unit".into()
+            } else if e.start == e.end && u.iter().any(|x| x.start == e.start) {
+                format!("between-units:before-{}", tamper::unit_at(u, e.start))
+            } else {
+                tamper::unit_at(u, p)
+            }
+        }
+        None => {
+            if seed.excl.iter().any(|(s, t)| p >= *s && p < *t) {
+                "excluded".into()
+            } else if p >= seed.signed.len() {
+                "eof".into()
+            } else {
+                "content".into()
+            }
+        }
+    }
+}
+
+/// Judge one mutant. Returns the outcome class.
+pub fn judge(run: &Run, seed: &Seed, e: &Edit, verbose: bool) -> String {
+    let m = e.apply(&seed.signed);
+    if m == seed.signed {
+        return "identity".into();
+    }
+    let obs = seed.observe(&m);
+    run.eval();
+    if verbose && std::env::var("VERIF_DEBUG").is_ok() {
+        let _ = std::fs::write("/tmp/out-B/seed.bin", &seed.signed);
+        let _ = std::fs::write("/tmp/out-B/mutant.bin", &m);
+    }
+    let case = json!({"seed": seed.id, "edit": e.to_json()});
+    let bname = seed.binding.name();
+    let class = obs.class();
+    if verbose {
+        println!("  seed={} edit={} -> {}", seed.id, e.to_json(), class);
+    }
+    match &obs {
+        Obs::Panic(p) => {
+            run.violation(
+                format!("panic {bname} {} {}", seed.fmt, tamper::panic_key(p)),
+                format!("reader panicked on a {} mutant of {} at {}: {p}", e.kind, seed.id, where_of(seed, e, &m)),
+                case,
+            );
+        }
+        Obs::Err(_) => {}
+        Obs::Invalid => {
+            let mut h = DefaultHasher::new();
+            m.hash(&mut h);
+            run.nontrivial(format!("{}:{:x}", seed.id, h.finish()));
+        }
+        Obs::Accepted { state, canon } => {
+            let mut h = DefaultHasher::new();
+            m.hash(&mut h);
+            run.nontrivial(format!("{}:{:x}", seed.id, h.finish()));
+            let conf = tamper::confined(&seed.binding, &seed.signed, &seed.excl, &seed.prot, &m);
+            if !conf {
+                run.violation(
+                    format!("undetected {bname} {} at={} edit={}", seed.fmt, where_of(seed, e, &m), e.kind),
+                    format!(
+                        "seed {}: `{}` (replaces [{}..{}) by {} byte(s)) changes bytes the signed {bname} binding does not declare excluded (declared excluded in the signed file: {:?}), yet the reader reports {state}",
+                        seed.id, e.sym, e.start, e.end, e.rep.len(), seed.excl
+                    ),
+                    case,
+                );
+                return format!("VIOLATION-undetected");
+            } else if *canon != seed.canon {
+                if verbose && std::env::var("VERIF_DEBUG").is_ok() {
+                    let _ = std::fs::write("/tmp/out-B/canon-seed.json", &seed.canon);
+                    let _ = std::fs::write("/tmp/out-B/canon-mutant.json", canon);
+                }
+                run.violation(
+                    format!("report-changed {bname} {} at={} edit={}", seed.fmt, where_of(seed, e, &m), e.kind),
+                    format!("seed {}: `{}` is confined to excluded bytes and reads {state}, but the reported manifest content differs from the seed's: {}", seed.id, e.sym, diff_hint(&seed.canon, canon)),
+                    case,
+                );
+                return format!("VIOLATION-report-changed");
+            }
+        }
+    }
+    class
+}
+
+pub fn run(run: &Run, replay: Option<&Value>) {
+    run.rule("one contiguous edit of the signed file per case; non-trivial = distinct mutant byte strings (per seed) on which the reader reached a validation verdict (Invalid, Valid or Trusted) instead of a parse error");
+    run.assume("assets are the kit's tiny assets (35-860 bytes, signed 4-9 KB): size dependent paths (large hash chunks, multi-segment JPEG stores) are not reached");
+    run.assume("single contiguous edits only; compensating multi-site edits are outside the bound");
+    run.assume("signer: repository Ed25519 test credentials, no time-stamp; trust lists not configured, so accepted seeds read Valid");
+    run.assume("harness-side resolvers (tamper.rs) define which bytes the signed binding declares excluded; with Merkle BMFF hashes the /mdat exclusion of the flat hash is NOT treated as unprotected because the Merkle rows bind those bytes");
+    run.assume("hostile bytes are read in-process under catch_unwind; a stack overflow/abort inside the SDK would end the run as a machinery failure instead of being attributed to a case");
+    // replays always build the thorough seed list so that any recorded seed id can be found
+    let seeds = build_seeds(run.tier.is_thorough() || replay.is_some());
+
+    if let Some(c) = replay {
+        let id = c["seed"].as_str().unwrap_or("");
+        let seed = seeds.iter().find(|s| s.id == id).unwrap_or_else(|| kit::ev::machinery(format!("replay: unknown seed {id}")));
+        let sym = c["edit"].as_str().unwrap_or("");
+        let e = edits(seed, false)
+            .into_iter()
+            .find(|e| e.sym == sym)
+            .or_else(|| edits(seed, true).into_iter().find(|e| e.sym == sym))
+            .unwrap_or_else(|| kit::ev::machinery(format!("replay: seed {id} has no edit `{sym}`")));
+        println!("replay C01: seed {} ({} bytes, binding {}, excluded {:?})", seed.id, seed.signed.len(), seed.binding.name(), seed.excl);
+        let r = judge(run, seed, &e, true);
+        println!("  outcome: {r}");
+        return;
+    }
+
+    // own the nondeterminism: the same bytes must give the same canonical report twice
+    for s in seeds.iter().take(3) {
+        let a = s.observe(&s.signed);
+        let b = s.observe(&s.signed);
+        match (&a, &b) {
+            (Obs::Accepted { canon: ca, .. }, Obs::Accepted { canon: cb, .. }) if ca == cb && *ca == s.canon => {}
+            _ => kit::ev::machinery(format!("seed {}: two reads of the same bytes differ ({} vs {})", s.id, a.class(), b.class())),
+        }
+    }
+
+    let mut per_seed = vec![];
+    for s in &seeds {
+        let ed = edits(s, run.tier.is_thorough());
+        run.space(
+            &format!(
+                "{} ({} bytes, {}, excluded {:?}): {} edits = flips{}/delete/insert/truncate at {} positions + appends + unit edits",
+                s.id,
+                s.signed.len(),
+                s.binding.name(),
+                s.excl,
+                ed.len(),
+                if run.tier.is_thorough() { "(255 values outside the store interior, 3 inside)" } else { "{01,80,FF}" },
+                positions(s, run.tier.is_thorough()).len()
+            ),
+            ed.len() as u64,
+            true,
+        );
+        let counts = std::sync::Mutex::new(std::collections::BTreeMap::<String, u64>::new());
+        if std::env::var("VERIF_DRY").is_ok() {
+            println!("dry: {} edits for {}", ed.len(), s.id);
+            continue;
+        }
+        par::for_each(&ed, |e| {
+            let c = judge(run, s, e, false);
+            *counts.lock().unwrap().entry(c).or_insert(0) += 1;
+        });
+        let counts = counts.into_inner().unwrap();
+        for (k, n) in &counts {
+            if k != "identity" {
+                run.outcome_n(format!("{}:{}", s.binding.name(), k), *n);
+            }
+        }
+        let accepted = counts.get("Valid").copied().unwrap_or(0) + counts.get("Trusted").copied().unwrap_or(0);
+        if per_seed.len() < 40 {
+            per_seed.push(json!({"seed": s.id, "edits": ed.len(), "accepted_unchanged": accepted, "invalid": counts.get("Invalid").copied().unwrap_or(0)}));
+        }
+        if s.id == "png/data" || s.id == "mp4/bmff" {
+            run.sample(json!({"seed": s.id, "signed_len": s.signed.len(), "declared_excluded": s.excl, "outcomes": counts}));
+        }
+        if let Some(e) = ed.first() {
+            if s.id.ends_with("/box") || s.id.ends_with("/update") {
+                run.sample(json!({"seed": s.id, "first_edit": e.to_json(), "outcomes": counts}));
+            }
+        }
+    }
+    if !run.tier.is_thorough() {
+        run.assume("quick tier: inside the manifest container only the first 64 / last 32 bytes and every 16th interior byte are edited (stated per seed); thorough edits every byte of the file");
+    }
+    run.extra("per_seed", json!(per_seed));
+    run.extra("seeds", json!(seeds.len()));
 }
